@@ -102,3 +102,13 @@ C('C22', 'value-transfer monitor over 7 call paths + event log of tagged errno v
 C('C36', 'event log + offline checker of callbacks invoked from pthreads Python did not create (waves, scripted exit delays) under concurrent Python-thread activity; ASan/UBSan deciding for crashes/use-after-free, TSan as observation',
   'Exploration: scenarios of 2-5 waves of 1-12 foreign threads x 0-50 calls through ffi.callback or extern "Python", with GC / callback creation / C calls on 0-2 Python threads; per foreign thread: stable thread ident, threading.local counter 0,1,2,... (state persists), never another thread\'s data, exactly one event per scripted call, process survives.',
   'Thread-state validity is observed behaviourally; the known zombie-list fast-path race reported by TSan is an observation. Interpreter shutdown while foreign threads still call back is outside the statement (CPython limitation).')
+
+C('C06', 'exhaustive enumeration of the finite primitive-name set with a gcc oracle (sizeof/_Alignof/signedness/class/range) and seven resolution paths that must return the same ctype object; ASan/UBSan children',
+  'Exhaustive over every key of ALL_PRIMITIVE_TYPES, PRIMITIVE_TO_INDEX, COMMON_TYPES and all orderings of every ISO specifier multiset, plus keyword sequences and one-character mutants of table identifiers as hostile neighbourhood; facts compared with gcc, identity across in-line, C parser, out-of-line ABI and compiled API modules, opcode-index sweep through primitive_name[].',
+  'exhaustive: true for the name set on this platform; plain char follows cffi\'s character semantics; parser strictness on non-table spellings is counted, not judged.')
+C('C13', 'four-way differential (API wrapper, libffi via addressof, in-line dlopen, out-of-line ABI dlopen) on generated C functions that fold arguments into the result, write through pointers and set errno; ASan backend',
+  'Exploration: 40 generated signatures per module over all integer sizes, _Bool, char, float, double, pointers, structs by value/return, variadics x 40 argument tuples (in-range, boundary, out-of-range, wrong type, list/bytes/NULL/wrongly typed cdata for pointers); return value (float bit patterns), exception class, buffers after the call and errno must agree across the four paths.',
+  'Signatures that hit a reproduced defect of the system libffi 3.4.4 (also via ctypes) are not generated; exception messages are not compared.')
+C('C29', 'history + shadow model of live callbacks: address distinctness at every creation and periodic full re-scans, binding checked by calling through cdata, a compiled C caller and the raw address; weakref collectability; ASan backend in one long-lived process',
+  'Exploration: create/drop/churn histories up to 20000 callbacks alive crossing every closure-page growth boundary, LIFO/FIFO/random reuse of freed closures, failing creations after closure allocation, callbacks in reference cycles; each call must run exactly its own function with its own signature and result.',
+  'Closure memory is mmapped (not under ASan red zones): distinctness is decided by the address monitor.')
